@@ -140,6 +140,10 @@ func WorkerMain(args []string) int {
 			fmt.Fprintln(os.Stderr, "no engine", job.Engine)
 			return 2
 		}
+		if (job.Params["race"] == "1") != raceBuild() {
+			gidx += uint64(job.n(*tier))
+			continue
+		}
 		for i := 0; i < job.n(*tier); i++ {
 			idx := gidx
 			gidx++
@@ -285,6 +289,16 @@ func CheckMain(args []string) int {
 	os.Setenv("VERIF_SCRATCH", scratch)
 
 	exe, _ := os.Executable()
+	if *tier == "thorough" {
+		// a small determinism sample first: lost determinism is harness trouble
+		cmd := exec.Command(exe, "selftest", "determinism", "--prop", prop, "--n", "10")
+		b, err := cmd.CombinedOutput()
+		fmt.Print(string(b))
+		if err != nil {
+			fmt.Fprintln(os.Stderr, "determinism self-test failed (harness trouble, not a violation)")
+			return 2
+		}
+	}
 	limit := 15 * time.Minute
 	budget := 6 * time.Minute
 	if *tier == "thorough" {
@@ -308,6 +322,35 @@ func CheckMain(args []string) int {
 			return 2
 		}
 		procs = append(procs, proc{cmd, out, logf})
+	}
+	hasRaceJobs := false
+	for _, j := range JobsFor(prop, *tier) {
+		if j.Params["race"] == "1" {
+			hasRaceJobs = true
+		}
+	}
+	if hasRaceJobs {
+		raceExe := filepath.Join(filepath.Dir(exe), "verif-race")
+		if _, err := os.Stat(raceExe); err != nil {
+			fmt.Fprintln(os.Stderr, "bin/verif-race is missing (harness trouble): the race-detector part of this check cannot run")
+			return 2
+		}
+		rw := *workers / 2
+		if rw < 1 {
+			rw = 1
+		}
+		for i := 0; i < rw; i++ {
+			out := filepath.Join(scratch, fmt.Sprintf("r%d.json", i))
+			logf, _ := os.Create(filepath.Join(scratch, fmt.Sprintf("r%d.log", i)))
+			cmd := exec.Command(raceExe, "worker", "--prop", prop, "--tier", *tier, "--seed", fmt.Sprint(*seed), "--shard", fmt.Sprint(i), "--of", fmt.Sprint(rw), "--out", out, "--budget", budget.String())
+			cmd.Stdout, cmd.Stderr = logf, logf
+			cmd.Env = append(os.Environ(), "GOMEMLIMIT=4GiB", "GOMAXPROCS=4", "GORACE=log_path="+filepath.Join(scratch, "racelog")+" halt_on_error=0")
+			if err := cmd.Start(); err != nil {
+				fmt.Fprintln(os.Stderr, "cannot start race worker:", err)
+				return 2
+			}
+			procs = append(procs, proc{cmd, out, logf})
+		}
 	}
 	done := make(chan int, len(procs))
 	for i := range procs {
@@ -337,7 +380,7 @@ func CheckMain(args []string) int {
 		p.log.Close()
 		b, err := os.ReadFile(p.out)
 		if err != nil {
-			lb, _ := os.ReadFile(filepath.Join(scratch, fmt.Sprintf("w%d.log", i)))
+			lb, _ := os.ReadFile(p.log.Name())
 			fmt.Fprintf(os.Stderr, "worker %d produced no result (harness trouble):\n%s\n", i, tail(string(lb), 3000))
 			return 2
 		}
@@ -517,8 +560,15 @@ func sanitize(s string) string {
 }
 
 func replayInFreshProcess(exe, path, wantRule string) (bool, string) {
+	env := append(os.Environ(), "GOMEMLIMIT=3GiB")
+	if strings.Contains(wantRule, "data-race") {
+		exe = filepath.Join(filepath.Dir(exe), "verif-race")
+		d, _ := os.MkdirTemp("", "verif-racelog-")
+		defer os.RemoveAll(d)
+		env = append(env, "GORACE=log_path="+filepath.Join(d, "racelog")+" halt_on_error=0")
+	}
 	cmd := exec.Command(exe, "replay", path)
-	cmd.Env = append(os.Environ(), "GOMEMLIMIT=3GiB")
+	cmd.Env = env
 	b, _ := cmd.CombinedOutput()
 	return strings.Contains(string(b), "rule="+wantRule+" "), string(b)
 }
